@@ -314,6 +314,68 @@ def job_cps(lo, hi, only):
 
 
 # ---------------------------------------------------------------------------
+# long tokens: a long run of one character class ended by a character that makes the match fail late
+# (catastrophic backtracking, quadratic scans and per-line size limits show here, each case under a time limit)
+# ---------------------------------------------------------------------------
+class _Timeout(BaseException):
+    pass
+
+
+class time_limit:
+    def __init__(self, seconds):
+        self.seconds = seconds
+
+    def __enter__(self):
+        import signal
+
+        def handler(signum, frame):
+            raise _Timeout()
+        self.old = signal.signal(signal.SIGALRM, handler)
+        self.remaining = signal.alarm(self.seconds)
+        return self
+
+    def __exit__(self, *exc):
+        import signal
+        signal.alarm(0)
+        signal.signal(signal.SIGALRM, self.old)
+        if self.remaining:
+            signal.alarm(max(1, self.remaining - self.seconds))
+        return False
+
+
+LONG_N = (8, 16, 24, 28, 32, 40, 64, 1000, 20000)
+
+
+def long_token_docs(n):
+    a = 'a' * n
+    yield '# language: ' + a + '1\nFeature: f\n'
+    yield '#language:' + ('a-' * (n // 2)) + '!\nFeature: f\n'
+    yield '  # ' + ' ' * n + 'language' + ' ' * n + ':' + ' ' * n + 'en' + ' ' * n + 'x\nFeature: f\n'
+    yield 'Feature: f\n  @' + a + ' b\n  Scenario: s\n'
+    yield 'Feature: f\n  @a' + ' ' * n + '#' + ' ' * n + '@\n  Scenario: s\n'
+    yield 'Feature: f\n  Scenario: s\n    Given g\n      |' + '\\\\' * n + '\n'
+    yield 'Feature: f\n  Scenario: s\n    Given g\n      |' + ' ' * n + '\\n' + ' ' * n + '|' + ' ' * n + '\n'
+    yield 'Feature: f\n  Scenario: s\n    Given g\n      """' + '"' * n + '\n      x\n      """\n'
+    yield 'Feature: f\n  Scenario Outline: <' + '<' * n + 'a>\n    Given <a' + '>' * n + '\n    Examples:\n      | a' + '<' * n + ' |\n      | ' + '\\\\' * n + ' |\n'
+    yield ' ' * n + 'Feature:' + ' ' * n + '\n' + '\t' * n + 'Scenario:' + ':' * n + '\n'
+
+
+@worker
+def job_long_tokens(n):
+    acc = Acc()
+    t = None
+    for t in long_token_docs(n):
+        try:
+            with time_limit(20):
+                check_text(t, acc)
+        except _Timeout:
+            acc.violation('superlinear-or-hang', {'kind': 'text', 'text': t if len(t) < 400 else t[:200] + '...(%d characters)' % len(t)},
+                          'processing a %d-character document did not finish in 20 s (token of %d repeated characters)' % (len(t), n))
+    acc.sample({'slot': 'long-token', 'text': (t or '')[:120]})
+    return acc
+
+
+# ---------------------------------------------------------------------------
 # growth families
 # ---------------------------------------------------------------------------
 GROWTH_N = (25, 50, 100, 200)
@@ -384,6 +446,7 @@ def run(ctx):
         ctx.level('error-cap', [job_cap.job(pi, m, 'patterns') for pi in range(len(pre)) for m in (10, 11, 12)])
     else:
         ctx.level('error-cap', [job_cap.job(pi, m, 'all') for pi in range(len(pre)) for m in (9, 10, 11, 12, 13)])
+    ctx.level('long tokens (8..20000 repeated characters) under a time limit', [job_long_tokens.job(n) for n in LONG_N])
     spaces = slot_spaces(seed, ctx.quick)
     jobs = []
     for name, (f, alpha, n) in spaces.items():
